@@ -1,6 +1,6 @@
 //! C13: element-wise mapping operations (shift, vshift, vdiff, vpct_change, ffill/bfill(_mask),
 //! fill(_mask), vclip, vabs, abs) through the real public API, for f64 / Option<f64> / i32 /
-//! Option<i32>, on Vec, Arc<Vec>, VecDeque (three ring offsets), ndarray (owned, step 2,
+//! Option<i32> (and f32 / i64 against the same models), on Vec, Arc<Vec>, VecDeque (three ring offsets), ndarray (owned, step 2,
 //! reversed) and the option view.  Exhaustive small scopes (every null pattern, every lag in
 //! -len-3..=len+3 and i32::MIN/MAX, every fill kind, every bound relation) + sampled longer series.
 use std::collections::VecDeque;
@@ -110,6 +110,83 @@ impl Elem for f64 {
         self.is_nan()
     }
     fn below(&self, c: &f64) -> bool {
+        *self < *c
+    }
+    fn do_vdiff<V: Vec1View<Self>>(v: &V, n: i32, f: Option<Self>) -> (usize, Vec<Self>) {
+        pure::collect(v.vdiff(n, f))
+    }
+    fn do_abs<V: Vec1View<Self>>(v: &V) -> (usize, Vec<Self>) {
+        pure::collect(v.titer().abs())
+    }
+}
+
+/// f32 shares the f64 model (`pF`): every generated value k/4 and every difference of two of them is
+/// exact in binary32, vpct_change casts to f64 first, the other operations do no arithmetic
+impl Elem for f32 {
+    const PACK: &'static str = "pF";
+    const TY: &'static str = "f32";
+    const NULLABLE: bool = true;
+    const ARITH: bool = true;
+    fn of_sym(s: Sym) -> Self {
+        match s {
+            Some(k) => k as f32 / 4.0,
+            None => f32::NAN,
+        }
+    }
+    fn inner_of(k: i64) -> f32 {
+        k as f32 / 4.0
+    }
+    fn cell(&self) -> Cell {
+        Cell::F(*self as f64)
+    }
+    fn coq(&self) -> String {
+        coq_f64(*self as f64)
+    }
+    fn coq_inner(c: &f32) -> String {
+        coq_f64(*c as f64)
+    }
+    fn isnull(&self) -> bool {
+        self.is_nan()
+    }
+    fn below(&self, c: &f32) -> bool {
+        *self < *c
+    }
+    fn do_vdiff<V: Vec1View<Self>>(v: &V, n: i32, f: Option<Self>) -> (usize, Vec<Self>) {
+        pure::collect(v.vdiff(n, f))
+    }
+    fn do_abs<V: Vec1View<Self>>(v: &V) -> (usize, Vec<Self>) {
+        pure::collect(v.titer().abs())
+    }
+}
+
+/// i64 shares the integer model (`pI`)
+impl Elem for i64 {
+    const PACK: &'static str = "pI";
+    const TY: &'static str = "i64";
+    const NULLABLE: bool = false;
+    const ARITH: bool = true;
+    fn of_sym(s: Sym) -> Self {
+        match s {
+            Some(k) => k,
+            None => panic!("generator: null for a plain integer"),
+        }
+    }
+    fn inner_of(k: i64) -> i64 {
+        k
+    }
+    fn cell(&self) -> Cell {
+        Cell::Int(*self as i128)
+    }
+    fn coq(&self) -> String {
+        coq_z(*self as i128)
+    }
+    fn coq_inner(c: &i64) -> String {
+        coq_z(*c as i128)
+    }
+    fn isnull(&self) -> bool {
+        false
+    }
+    fn below(&self, c: &i64) -> bool {
         *self < *c
     }
     fn do_vdiff<V: Vec1View<Self>>(v: &V, n: i32, f: Option<Self>) -> (usize, Vec<Self>) {
@@ -776,16 +853,22 @@ fn main() {
     lag_family::<Option<f64>>(&mut cx, lo, lop);
     lag_family::<Option<i32>>(&mut cx, lo, lop);
     lag_family::<i32>(&mut cx, 8, 5);
+    lag_family::<f32>(&mut cx, 4, 3);
+    lag_family::<i64>(&mut cx, 6, 4);
     elementwise_family::<f64>(&mut cx, le, lc);
     elementwise_family::<Option<f64>>(&mut cx, leo, lco);
     elementwise_family::<Option<i32>>(&mut cx, leo, lco);
     elementwise_family::<i32>(&mut cx, 8, 4);
+    elementwise_family::<f32>(&mut cx, 4, 3);
+    elementwise_family::<i64>(&mut cx, 6, 3);
     let rounds = if thorough { 400 } else { 90 };
     let hi = if thorough { 40 } else { 14 };
     sampled_family::<f64>(&mut cx, &mut rng, rounds, 7, hi);
     sampled_family::<Option<f64>>(&mut cx, &mut rng, rounds, 5, hi);
     sampled_family::<Option<i32>>(&mut cx, &mut rng, rounds, 5, hi);
     sampled_family::<i32>(&mut cx, &mut rng, rounds / 2, 5, hi);
+    sampled_family::<f32>(&mut cx, &mut rng, rounds / 2, 5, hi);
+    sampled_family::<i64>(&mut cx, &mut rng, rounds / 2, 5, hi);
     hostile_family::<f64>(&mut cx, &mut rng, rounds);
     hostile_family::<Option<f64>>(&mut cx, &mut rng, rounds);
     cx.em.finish();
